@@ -53,6 +53,8 @@ def main():
             print(json.dumps(meta, indent=1)); return
         rc1, out1 = sh("cargo test --offline --test seed_demo 2>&1 | tail -25", cwd=wt)
         p1, f1 = test_counts(out1)
+        if f1 == 0 and ("process didn't exit successfully" in out1 or "SIGABRT" in out1 or "overflowed its stack" in out1):
+            f1 = 1  # the demonstration aborted the test process (stack overflow, abort): it did fail
         meta["demo_with_patch"] = {"passed": p1, "failed": f1, "tail": out1[-600:]}
         os.remove(os.path.join(wt, "tests", "seed_demo.rs"))
         rc2, out2 = sh("cargo test --workspace --no-fail-fast --offline 2>&1", cwd=wt)
